@@ -179,7 +179,8 @@ def stepOp (st : St) (op implObs : String) : St × String × List String :=
     let sent := st.sent.reverse
     let allWF := sent.all (wfB max) && st.raws.all (fun b => skippable max (b.length + 1) b)
     let expect := s!"msgs={showMsgs sent} end=eof"
-    let viol := if allWF ∧ implObs ≠ expect then ["C11 roundtrip-differs"] else []
+    let viol := (if allWF ∧ implObs ≠ expect then ["C11 roundtrip-differs"] else []) ++
+      (if (kvStr (words implObs) "end").startsWith "panic" then ["C08 reader-panic " ++ kvStr (words implObs) "end"] else [])
     let tg := (if allWF then ["branch:roundtrip-oracle"] else ["branch:read-not-all-wf"]) ++ [s!"end:{showErr o.err}"]
     ({ st with tags := tg ++ st.tags }, obs, viol)
   | some "hs" =>
